@@ -42,7 +42,10 @@ def content_class(p):
 
 
 def nm_class(label):
-    return label.split("@")[0]
+    c = label.split("@")[0]
+    if c.startswith("ws") and "_" in c:
+        return "ws_insert"  # reduced near-miss set: one representative (line feed at the start); full set: all 24
+    return c
 
 
 def len_class(n, limit=None):
